@@ -167,6 +167,11 @@ func (s *Set) getTemplate(templatePath string, cacheAfterParsing bool, parsing .
 }
 
 func (s *Set) getTemplateFromCache(templatePath string) (t *Template, ok bool) {
+	// check the path getTemplate() puts a template under, which has no extension appended
+	// (the loop below only finds it there when "" is one of the extensions)
+	if t := s.cache.Get(templatePath); t != nil {
+		return t, true
+	}
 	// check path with all possible extensions in cache
 	for _, extension := range s.extensions {
 		canonicalPath := templatePath + extension
